@@ -164,7 +164,23 @@ def check_kem_side(rep, facts, spec, key, side, rule='R03.2'):
             okss = False
             if ss is not None:
                 alts = [x[1] for x in ss[1]] if ss[0] == 'phi' else [ss]
-                okss = all(v[0] == 'mem' and len(v[3]) == 1 and v[3][0][2][0] == 'call' and v[3][0][2][1] == XAE and v[3][0][1] == (('f', '0'),) for v in alts)
+                okss = bool(alts)
+                xae_sites = {v2[2] for v2 in seen.values()}
+                for v in alts:
+                    if v[0] != 'mem' or not v[3]:
+                        okss = False
+                        continue
+                    ws = v[3]
+                    shape = all(w[2][0] == 'call' and w[2][1] == XAE and w[1] == (('f', '0'),) and w[0][0] in xae_sites for w in ws)
+                    if len(ws) == 1:
+                        okss = okss and shape
+                    else:
+                        # one buffer filled on either branch of the identity option: the writers sit on different branches and no
+                        # path reaches this return without passing one of them
+                        wb = [w[0][0] for w in ws]
+                        excl = len(set(wb)) == len(wb) and all(not a.cfg.reaches_avoiding(x, y) for x in wb for y in wb if x != y)
+                        covered = s not in (None, 'entry') and not a.cfg.reaches_avoiding(0, s[0], avoid_blocks=set(wb))
+                        okss = okss and shape and excl and covered
             rep.check(good and okss, rule, fn, 'result', pp(t)[:200], exp + ' — the buffer written by ExtractAndExpand', where(a, s))
     for h in helpers:
         if h:
